@@ -64,6 +64,7 @@ type Interp struct {
 	soaked bool
 	soakAt uint64
 	wedged bool
+	backward bool // the clock has stepped backwards in this case: the library's uint64 response times wrap
 	soakN  int // soaks so far in this case
 	hungReset bool // the clean-up of the previous case hung: reported by the first op of the next one
 	cmaps  map[string]map[interface{}]interface{} // the caller's own attachment maps (WithAttachments arguments)
@@ -104,6 +105,7 @@ func (it *Interp) Reset() {
 		}
 	}
 	it.wedged = false
+	it.backward = false
 	it.soakN = 0
 	it.cmaps = map[string]map[interface{}]interface{}{}
 	// the inbound node is package level: bring its gauge back to zero (a recovered panic leaves it off by one)
@@ -187,7 +189,19 @@ func (s *recSlot) OnEntryBlocked(c *base.EntryContext, b *base.BlockError) {
 	s.it.log = append(s.it.log, fmt.Sprintf("B/%d/%s/%d", s.id, c.Resource.Name(), c.Input.BatchCount))
 }
 func (s *recSlot) OnCompleted(c *base.EntryContext) {
-	rt := s.it.clk.CurrentTimeMillis() - c.StartTime()
+	// the recorder's own figure: saturating difference of the two readings, taken on the case's time axis (readings at or
+	// after the case's epoch are relative to it, absolute tiny readings stay as they are) so that it does not depend on
+	// how many cases ran before
+	norm := func(t uint64) uint64 {
+		if t >= s.it.base {
+			return t - s.it.base + epoch0
+		}
+		return t
+	}
+	rt := uint64(0)
+	if now, st := norm(s.it.clk.CurrentTimeMillis()), norm(c.StartTime()); now > st {
+		rt = now - st
+	}
 	s.it.log = append(s.it.log, fmt.Sprintf("C/%d/%s/%d/%s/%d", s.id, c.Resource.Name(), c.Input.BatchCount, errTag(c.Err()), rt))
 }
 
@@ -480,7 +494,18 @@ func sortedKV(m map[interface{}]interface{}) string {
 func (it *Interp) step(t []string, op string) string {
 	switch t[0] {
 	case "clock":
+		if t[1] == "abs" { // an absolute reading (0, tiny values): far behind the epoch, i.e. the clock steps backwards
+			ms := vh.U(t[2])
+			if ms < it.clk.CurrentTimeMillis() {
+				it.backward = true
+			}
+			it.clk.SetMs(ms)
+			return ""
+		}
 		rel := vh.U(t[1])
+		if it.base+rel < it.clk.CurrentTimeMillis() {
+			it.backward = true
+		}
 		if rel > it.maxRel {
 			it.maxRel = rel
 		}
@@ -521,25 +546,52 @@ func (it *Interp) step(t []string, op string) string {
 		case "out":
 			opts = append(opts, sentinel.WithTrafficType(base.Outbound))
 		}
-		i := 4
+		i, split, dup := 4, 0, ""
 		for ; ; i++ {
 			if strings.HasPrefix(t[i], "type=") {
 				v, ok := resTypes[t[i][5:]]
 				if !ok {
 					panic("bad resource type " + t[i])
 				}
+				if strings.Contains(dup, "r") {
+					opts = append(opts, sentinel.WithResourceType(base.ResTypeMQ))
+				}
 				opts = append(opts, sentinel.WithResourceType(v))
 			} else if strings.HasPrefix(t[i], "flag=") {
+				if strings.Contains(dup, "f") {
+					opts = append(opts, sentinel.WithFlag(99))
+				}
 				opts = append(opts, sentinel.WithFlag(int32(vh.I(t[i][5:]))))
+			} else if strings.HasPrefix(t[i], "argsplit=") {
+				split = int(vh.U(t[i][9:]))
+			} else if strings.HasPrefix(t[i], "dup=") {
+				// options passed twice, a decoy value first: the last one counts (dup= precedes type=/flag= in the op line)
+				dup = t[i][4:]
+				if strings.Contains(dup, "t") && t[3] != "-" {
+					decoy := base.Inbound
+					if t[3] == "in" {
+						decoy = base.Outbound
+					}
+					opts = append([]sentinel.EntryOption{sentinel.WithTrafficType(decoy)}, opts...)
+				}
 			} else {
 				break
 			}
 		}
 		if t[i] != "-" {
+			if strings.Contains(dup, "b") {
+				opts = append(opts, sentinel.WithAcquireCount(77)) // deprecated alias, as the decoy
+			}
 			opts = append(opts, sentinel.WithBatchCount(uint32(vh.U(t[i]))))
 		}
 		if sc := it.chain(t[i+1]); sc != nil {
+			if strings.Contains(dup, "c") {
+				opts = append(opts, sentinel.WithSlotChain(it.chain("c/N/b/S")))
+			}
 			opts = append(opts, sentinel.WithSlotChain(sc))
+		}
+		if strings.Contains(dup, "a") {
+			opts = append(opts, sentinel.WithAttachments(map[interface{}]interface{}{"decoy": "1"}))
 		}
 		n := int(vh.U(t[i+2]))
 		if n > 0 {
@@ -547,7 +599,11 @@ func (it *Interp) step(t []string, op string) string {
 			for _, a := range t[i+3 : i+3+n] {
 				args = append(args, parseArg(a))
 			}
-			opts = append(opts, sentinel.WithArgs(args...))
+			if split > 0 && split < n { // several WithArgs in one call: the argument list is their concatenation
+				opts = append(opts, sentinel.WithArgs(args[:split]...), sentinel.WithArgs(args[split:]...))
+			} else {
+				opts = append(opts, sentinel.WithArgs(args...))
+			}
 		}
 		if rest := t[i+3+n:]; len(rest) > 0 {
 			if rest[0] != "|" {
@@ -578,6 +634,15 @@ func (it *Interp) step(t []string, op string) string {
 			return "block"
 		}
 		return "both-or-neither" // "exactly one outcome" is part of the property
+	case "resetnodes":
+		stat.ResetResourceNodeMap() // a test utility, but callable while entries are in flight
+		return ""
+	case "nodes":
+		var xs []string
+		for _, n := range stat.ResourceNodeList() {
+			xs = append(xs, n.ResourceName())
+		}
+		return vh.SortedList(xs)
 	case "whenexit":
 		x := it.ents[t[1]]
 		if x.e == nil {
@@ -643,6 +708,9 @@ func (it *Interp) step(t []string, op string) string {
 	case "read":
 		if t[2] == "maxconc" && it.soaked && it.clk.CurrentTimeMillis() < it.soakAt+1000 {
 			return "?" // the peak reached inside a soak depends on the schedule
+		}
+		if it.backward && (t[2] == "minrt" || (len(t) > 3 && t[3] == "rt")) {
+			return "?" // wrapped response times are not compared
 		}
 		n := node(t[1])
 		if n == nil {
